@@ -132,13 +132,13 @@ def corr(ctx):
         ctx.count(f'corr-target-{tkind}')
         ctx.count(f'corr-use_eig-{ue}')
         try:
-            wg = bf.get_gev_vector(target.copy(), noise.copy(), use_eig=ue)
-            wp = bf.get_pca_vector(target.copy(), scaling=scaling)
-            vtop, ltop = bf.get_pca(target.copy())
-            e_p = bw.get_pca_rank_one_estimate(target.copy())
-            e_g = bw.get_gev_rank_one_estimate(target.copy(), noise.copy(), use_eig=ue)
-            atf = bw._get_gev_atf_vector(target.copy(), noise.copy(), use_eig=ue)
-            a_p = bf.get_pca_vector(target.copy())
+            wg = bf.get_gev_vector(target.copy(order='K'), noise.copy(order='K'), use_eig=ue)
+            wp = bf.get_pca_vector(target.copy(order='K'), scaling=scaling)
+            vtop, ltop = bf.get_pca(target.copy(order='K'))
+            e_p = bw.get_pca_rank_one_estimate(target.copy(order='K'))
+            e_g = bw.get_gev_rank_one_estimate(target.copy(order='K'), noise.copy(order='K'), use_eig=ue)
+            atf = bw._get_gev_atf_vector(target.copy(order='K'), noise.copy(order='K'), use_eig=ue)
+            a_p = bf.get_pca_vector(target.copy(order='K'))
         except Exception as e:  # noqa
             ctx.corr('gev/pca', False, f'raised {type(e).__name__}: {e}', {'target': target, 'noise': noise})
             continue
@@ -146,7 +146,7 @@ def corr(ctx):
         if i % 10 == 9:
             bw_vec[...] = 0                     # degenerate stream: zero vector -> the `where=denominator != 0` branch
             ctx.count('corr-ban-zero-vector')
-        wb = bf.blind_analytic_normalization(bw_vec.copy(), noise.copy())
+        wb = bf.blind_analytic_normalization(bw_vec.copy(order='K'), noise.copy(order='K'))
         idxs = U.slices(lead)
         if len(idxs) > 3:
             idxs = [idxs[j] for j in rng.choice(len(idxs), 3, replace=False)]
@@ -237,7 +237,7 @@ def corr(ctx):
 @oracle
 def gev_is_principal(target, noise, use_eig, seed):
     """SNR of get_gev_vector = largest generalised eigenvalue (scipy.linalg.eigh) and >= SNR of probe vectors"""
-    w = bf.get_gev_vector(target.copy(), noise.copy(), use_eig=use_eig)
+    w = bf.get_gev_vector(target.copy(order='K'), noise.copy(order='K'), use_eig=use_eig)
     lead = target.shape[:-2]
     D = target.shape[-1]
     if w.shape != lead + (D,):
@@ -264,9 +264,9 @@ def gev_is_principal(target, noise, use_eig, seed):
 def gev_dominates_wrapper(target, noise, name):
     """no beamformer get_bf_vector can produce has a larger SNR than the largest generalised eigenvalue / GEV's SNR"""
     F, D, _ = target.shape
-    wg = bf.get_gev_vector(target.copy(), noise.copy())
+    wg = bf.get_gev_vector(target.copy(order='K'), noise.copy(order='K'))
     kwargs = {}
-    w = bw.get_bf_vector(name, target.copy(), noise.copy(), **kwargs)
+    w = bw.get_bf_vector(name, target.copy(order='K'), noise.copy(order='K'), **kwargs)
     w = np.broadcast_to(w, (F, D)).astype(np.complex128)
     for f in range(F):
         X, N = target[f], noise[f]
@@ -288,8 +288,8 @@ def gev_dominates_wrapper(target, noise, name):
 @oracle
 def pca_is_principal(target, scaling, seed):
     """w^H Phi w / w^H w = lambda_max >= probes; scaled vector = positive factor times the unit-norm eigenvector"""
-    w = bf.get_pca_vector(target.copy(), scaling=scaling)
-    w0 = bf.get_pca_vector(target.copy(), scaling=None)
+    w = bf.get_pca_vector(target.copy(order='K'), scaling=scaling)
+    w0 = bf.get_pca_vector(target.copy(order='K'), scaling=None)
     lead = target.shape[:-2]
     D = target.shape[-1]
     if w.shape != lead + (D,):
@@ -322,12 +322,13 @@ def pca_is_principal(target, scaling, seed):
 
 
 @oracle
-def rank_one_estimate_properties(target, noise, kind, use_eig):
-    """Hermitian, rank one, trace preserving"""
+def rank_one_estimate_properties(target, noise, kind, use_eig, scaling=None):
+    """Hermitian, rank one, trace preserving (PCA variant: for every `scaling` option of the underlying PCA vector)"""
     if kind == 'pca':
-        e = bw.get_pca_rank_one_estimate(target.copy())
+        kw = {} if scaling is None else {'scaling': scaling}
+        e = bw.get_pca_rank_one_estimate(target.copy(order='K'), **kw)
     else:
-        e = bw.get_gev_rank_one_estimate(target.copy(), noise.copy(), use_eig=use_eig)
+        e = bw.get_gev_rank_one_estimate(target.copy(order='K'), noise.copy(order='K'), use_eig=use_eig)
     if e.shape != target.shape:
         return Fail('shape', f'estimate shape {e.shape} != {target.shape}')
     for idx in U.slices(target.shape[:-2]):
@@ -347,15 +348,16 @@ def rank_one_estimate_properties(target, noise, kind, use_eig):
 
 
 @oracle
-def rank_one_estimate_recovers(a, sigma, noise, kind, use_eig):
+def rank_one_estimate_recovers(a, sigma, noise, kind, use_eig, scaling=None):
     """exactly rank-one target sigma a a^H: the estimate equals the target, its range is the steering direction"""
     target = U.rank_one(a, sigma)
     if kind == 'pca':
-        e = bw.get_pca_rank_one_estimate(target.copy())
-        atf = bf.get_pca_vector(target.copy())
+        kw = {} if scaling is None else {'scaling': scaling}
+        e = bw.get_pca_rank_one_estimate(target.copy(order='K'), **kw)
+        atf = bf.get_pca_vector(target.copy(order='K'))
     else:
-        e = bw.get_gev_rank_one_estimate(target.copy(), noise.copy(), use_eig=use_eig)
-        atf = bw._get_gev_atf_vector(target.copy(), noise.copy(), use_eig=use_eig)
+        e = bw.get_gev_rank_one_estimate(target.copy(order='K'), noise.copy(order='K'), use_eig=use_eig)
+        atf = bw._get_gev_atf_vector(target.copy(order='K'), noise.copy(order='K'), use_eig=use_eig)
     for idx in U.slices(a.shape[:-1]):
         t = 1e-10 if kind == 'pca' else 10 * tol(U.cond_of(noise[idx]))
         sc = float(np.max(np.abs(target[idx])))
@@ -371,12 +373,12 @@ def rank_one_estimate_recovers(a, sigma, noise, kind, use_eig):
 @oracle
 def ban_rescales_only(vector, noise, c_abs, c_phase):
     """BAN = positive real gain sqrt(w^H N N w)/(w^H N w) times w; independent of |c| for input c*w"""
-    out = bf.blind_analytic_normalization(vector.copy(), noise.copy())
+    out = bf.blind_analytic_normalization(vector.copy(order='K'), noise.copy(order='K'))
     if out.shape != vector.shape:
         return Fail('shape', f'result shape {out.shape} != {vector.shape}')
     c = c_abs * np.exp(1j * c_phase)
-    out_pos = bf.blind_analytic_normalization(c_abs * vector, noise.copy())
-    out_cx = bf.blind_analytic_normalization(c * vector, noise.copy())
+    out_pos = bf.blind_analytic_normalization(c_abs * vector, noise.copy(order='K'))
+    out_cx = bf.blind_analytic_normalization(c * vector, noise.copy(order='K'))
     for idx in U.slices(vector.shape[:-1]):
         w, N, o = vector[idx], noise[idx], out[idx]
         t = tol(U.cond_of(N))
@@ -400,8 +402,8 @@ def ban_rescales_only(vector, noise, c_abs, c_phase):
 @oracle
 def ban_keeps_snr(target, noise, use_eig):
     """BAN applied to the GEV vector: direction and SNR unchanged"""
-    w = bf.get_gev_vector(target.copy(), noise.copy(), use_eig=use_eig)
-    o = bf.blind_analytic_normalization(w.copy(), noise.copy())
+    w = bf.get_gev_vector(target.copy(order='K'), noise.copy(order='K'), use_eig=use_eig)
+    o = bf.blind_analytic_normalization(w.copy(order='K'), noise.copy(order='K'))
     for idx in U.slices(target.shape[:-2]):
         t = tol(U.cond_of(noise[idx]))
         q0, q1 = U.rayleigh(w[idx], target[idx], noise[idx]), U.rayleigh(o[idx], target[idx], noise[idx])
@@ -436,10 +438,10 @@ def search(ctx):
                         'cond_max': cmax, 'held': ok})
         ctx.run(pca_is_principal, target=target, scaling=scaling, seed=seed)
         kind = ['pca', 'gev'][(i // 2) % 2]
-        ctx.run(rank_one_estimate_properties, target=target, noise=noise, kind=kind, use_eig=ue)
+        ctx.run(rank_one_estimate_properties, target=target, noise=noise, kind=kind, use_eig=ue, scaling=scaling)
         a, _ = U.steering(rng, lead + (D,))
         sigma = 10 ** rng.uniform(-3, 3, size=lead)
-        ctx.run(rank_one_estimate_recovers, a=a, sigma=sigma, noise=noise, kind=kind, use_eig=ue)
+        ctx.run(rank_one_estimate_recovers, a=a, sigma=sigma, noise=noise, kind=kind, use_eig=ue, scaling=scaling)
         vec = U.cnormal(rng, lead + (D,)) * 10 ** rng.uniform(-3, 3)
         ctx.run(ban_rescales_only, vector=vec, noise=noise, c_abs=float(10 ** rng.uniform(-6, 6)),
                 c_phase=float(rng.uniform(-np.pi, np.pi)))
